@@ -157,7 +157,7 @@ def handle (j : Json) : Json :=
         ("cams", Json.arr ((camIds d.recs).map (fun kv => Json.arr #[sj kv.1, natJ kv.2])).toArray),
         ("views", Json.arr ((viewIds d.recs).map (fun kv => Json.arr #[sj kv.1, natJ kv.2])).toArray),
         ("subRoot", sj (joinSlash sub))]
-      let regions := Json.arr (d.recs.map (fun r => Json.arr #[sj r.name, sj (regionBaseExport flatten r.name)])).toArray
+      let regions := Json.arr (d.recs.map (fun r => Json.arr #[sj r.name, sj (regionBaseExport flatten sub r.name)])).toArray
       match exportSfm flatten (getBool j "v2") rootBase d with
       | Except.error e => Json.mkObj [("export", err e), ("ids", ids), ("regions", regions)]
       | Except.ok s =>
